@@ -1,4 +1,5 @@
 //! Generators: choice sequence -> structured specs.
+pub mod frames;
 pub mod headers;
 pub mod modular;
 pub mod stream;
